@@ -9,7 +9,7 @@
 (* one run reports all deviations.  No expectation is computed outside the *)
 (* specification modules this module extends.                              *)
 (***************************************************************************)
-EXTENDS Bytes, Prim, HdwIO, Numbers, Rlp, Ecdsa, Tx, Bip39, HdPath, Bip32, SigText, Eip191, HexCodec, Eip712, Wallet, Json, IOUtils, TLC, FiniteSets
+EXTENDS Bytes, Prim, HdwIO, Numbers, Rlp, Ecdsa, Tx, Bip39, HdPath, Bip32, SigText, Eip191, HexCodec, Eip712, Wallet, NewCmd, SequencesExt, Json, IOUtils, TLC, FiniteSets
 
 Rec == ndJsonDeserialize(IOEnv.HDW_TRACE)
 
@@ -108,9 +108,13 @@ JudgeForIndex(e) ==
   LET o   == e.out
       idx == BnFromDec(DecVals(StrToUtf8(e.in.index)))
       std == BnLt(idx, Two31)
-  IN  [cls |-> IF std THEN "accept" ELSE "open",
+  IN  [cls |-> IF std THEN "accept" ELSE "either",
        devs |-> CrashDevs(o) \cup
-         (IF ~std THEN {}
+         (IF ~std THEN
+            \* no default path exists for i >= 2^31: refusing is right; whatever is returned instead must at
+            \* least be a standard path (one whose printed form the path grammar accepts)
+            (IF IsOk(o) /\ Classify(StrToUtf8(o.ok.display)).c # "accept"
+             THEN {D({"C14"}, "for_index_nonstandard_path", o.ok.display)} ELSE {})
           ELSE IF IsOk(o) /\ StrToUtf8(o.ok.display) = PrintPath(ForIndex(idx)) THEN {}
           ELSE {D({"C14"}, "for_index", IF IsOk(o) THEN o.ok.display ELSE "no path")})]
 
@@ -258,7 +262,7 @@ CliRefusalProps(why) ==
   IF why = "missing_replay_protection" THEN {"C11"}
   ELSE IF why \in {"selectors_combined", "mnemonic_required", "raw_digest"} THEN {"C16"}
   ELSE IF why \in {"mnemonic_word_count", "mnemonic_unknown_word", "mnemonic_checksum"} THEN {"C01", "C16"}
-  ELSE IF why \in {"path_index_ge_2^31", "path_not_a_number", "path_missing_root"} THEN {"C14", "C16"}
+  ELSE IF why \in {"path_index_ge_2^31", "path_not_a_number", "path_missing_root", "account_index_ge_2^31"} THEN {"C14", "C16"}
   ELSE IF why \in {"signature_length", "signature_non_hex", "signature_v", "signature_scalar_range"} THEN {"C15"}
   ELSE IF why \in {"typeddata_domain_type", "typeddata_no_domain_type"} THEN {"C20"}
   ELSE IF why = "hex_text" THEN {"C19"}
@@ -325,6 +329,99 @@ JudgeCli(e) ==
              ELSE IF CliCrashed(o) THEN {D(CliResultProps(c), "cli_crash_instead_of_result", "")}
              ELSE IF o.status = 0 THEN {D(CliResultProps(c), "cli_wrong_output", o.stdout)}
              ELSE {D(CliResultProps(c), "cli_refused_valid_command", o.stderr_head)}))]
+
+-----------------------------------------------------------------------------
+\* cli.new : in = [new = [length, prefix, vpassword, vindex, vpath, threads] (texts, "" = not given), argv, shim]
+\*           out = [status, signal, stdout, stderr_len, timeout, reqs = <<[seq, tid, len, rc, hex]>>]
+\* The shim's totally ordered log of the environment's answers is folded through the observer operators
+\* of Vanity.tla (MC_Vanity proves: every behaviour of the model passes this fold).
+JudgeNew(e) ==
+  LET o  == e.out
+      c  == e.in.new
+      lenCs == StrToUtf8(c.length)
+      thrCs == StrToUtf8(c.threads)
+      ixCs  == StrToUtf8(c.vindex)
+      pre   == IF c.prefix = "" THEN [c |-> "accept", nibbles |-> <<>>] ELSE ParsePrefix(StrToUtf8(c.prefix))
+      path  == IF c.vpath = "" THEN [c |-> "accept", comps |-> <<>>] ELSE Classify(StrToUtf8(c.vpath))
+      ixOk  == c.vindex = "" \/ (SmallNat(ixCs) \/ (AllDigit(ixCs) /\ Len(ixCs) <= 10 /\ (Len(ixCs) = 1 \/ ixCs[1] # 48)
+                                                     /\ BnLt(BnFromDec(DecVals(ixCs)), Two31)))
+      \* spellings / combinations this specification leaves open
+      open  == ~(c.length = "" \/ SmallNat(lenCs)) \/ ~(c.threads = "" \/ SmallNat(thrCs)) \/ pre.c = "open"
+               \/ path.c = "either" \/ (c.vindex # "" /\ ~AllDigit(ixCs))
+      crashed == CliCrashed(o)
+      bound == e.in.argv = NewArgv(c)
+  IN
+  IF open THEN [cls |-> "open", devs |-> CliCrashDevs(o)]
+  ELSE
+  LET words == IF c.length = "" THEN 12 ELSE BnToNat(BnFromDec(DecVals(lenCs)))
+      cfg == [vanity |-> c.prefix # "", threads |-> IF c.threads = "" THEN 64 ELSE BnToNat(BnFromDec(DecVals(thrCs))),
+              nibbles |-> pre.nibbles, vpassword |-> StrToCps(c.vpassword), words |-> words,
+              comps |-> IF c.vpath # "" THEN path.comps
+                        ELSE ForIndex(IF c.vindex = "" \/ ~ixOk THEN <<>> ELSE BnFromDec(DecVals(ixCs)))]
+      \* the command line itself must be refused: bad prefix, both selectors, bad path, unsupported length,
+      \* a vanity account index for which no default path exists
+      mustRefuse == pre.c = "reject" \/ (c.vindex # "" /\ c.vpath # "") \/ path.c = "reject" \/ ~ConcreteSupported(cfg)
+                    \/ (c.prefix # "" /\ ~ixOk)
+      reqs == o.reqs
+      \* fold of the environment's answers
+      step(acc, r) ==
+        LET s == acc.s IN
+        IF acc.k = 1 THEN
+          [k |-> 2,
+           s |-> IF r.rc = 0 /\ r.len = EntBytes(words) THEN VN!MainGrant(cfg, s, r.tid, PhraseOfEntropy(Hx(r.hex)))
+                 ELSE VN!MainRefuse(cfg, s, r.tid),
+           devs |-> IF r.rc = 0 /\ r.len # EntBytes(words)
+                    THEN {D({"C12"}, "entropy_request_size", ToString(r.len))} ELSE {}]
+        ELSE IF s.main \notin {"wait", "inline"} THEN
+          [acc EXCEPT !.k = @ + 1, !.devs = @ \cup {D({"C12", "C18"}, "entropy_request_after_exit_point", ToString(r.seq))}]
+        ELSE IF ~VN!MayRequest(cfg, s, r.tid) THEN
+          \* a thread asked for entropy although the model's worker would not: its candidate matches,
+          \* it was refused before, or there are more searching threads than requested
+          [acc EXCEPT !.k = @ + 1, !.devs = @ \cup {D({"C18"}, "request_not_allowed_by_vanity_model", ToString(r.seq))}]
+        ELSE
+          [k |-> acc.k + 1,
+           s |-> IF r.rc = 0 /\ r.len = EntBytes(words) THEN VN!WorkerGrant(cfg, s, r.tid, PhraseOfEntropy(Hx(r.hex)))
+                 ELSE VN!WorkerRefuse(cfg, s, r.tid),
+           devs |-> acc.devs \cup (IF r.rc = 0 /\ r.len # EntBytes(words)
+                                   THEN {D({"C12"}, "entropy_request_size", ToString(r.len))} ELSE {})]
+      fin == IF mustRefuse THEN [k |-> 1, s |-> VN!Init(cfg), devs |-> {}]
+             ELSE FoldLeft(step, [k |-> 1, s |-> VN!Init(cfg), devs |-> {}], reqs)
+      printed == ~crashed /\ o.status = 0
+      text == Hx(o.stdout)
+      phrase == Utf8ToStr(TrimNl(text))
+      pp == ParsePhrase(StrToCps(phrase))
+      props == IF c.prefix = "" THEN {"C12"} ELSE {"C12", "C18"}
+      \* independent invocations never repeat a phrase (session relation "fresh_phrase")
+      stale == Has(e.in, "rel") /\ e.in.rel = <<"fresh_phrase">> /\ printed
+               /\ \E k \in DOMAIN store.outs : store.outs[k] = o.stdout
+  IN
+  [cls |-> IF mustRefuse THEN "reject" ELSE "accept",
+   devs |->
+     CliCrashDevs(o) \cup fin.devs \cup
+     (IF stale THEN {D({"C12"}, "phrase_repeated_across_invocations", phrase)} ELSE {}) \cup
+     (IF ~bound THEN {D({"C18"}, "argv_not_rendering_of_command", "")} ELSE {}) \cup
+     (IF crashed THEN
+        (IF o.timeout /\ c.prefix # "" /\ Len(pre.nibbles) <= 3 /\ ~mustRefuse THEN {D({"C18"}, "vanity_search_did_not_terminate", "")}
+         ELSE IF mustRefuse THEN {D(props, "cli_crash_instead_of_refusal", "")} ELSE {})
+      ELSE IF mustRefuse THEN
+        (IF CliFailedOk(o) THEN {}
+         ELSE IF printed THEN {D(IF pre.c = "reject" THEN {"C18"} ELSE props, "new_printed_instead_of_refusal", phrase)}
+         ELSE {D(props, "cli_output_before_error", "")})
+      ELSE IF printed THEN
+        (IF text = <<>> \/ text[Len(text)] # 10 \/ pp.c # "accept"
+         THEN {D(props, "printed_phrase_not_valid", phrase)}
+         ELSE (IF pp.n # words THEN {D(props, "printed_phrase_length", ToString(pp.n))} ELSE {})
+              \* the phrase is the image of granted entropy and, for a vanity search, a matching current candidate
+              \cup (IF ~VN!MayPrint(cfg, fin.s, pp.phrase)
+                    THEN {D(props, IF c.prefix # "" /\ ~ConcreteMatches(cfg, pp.phrase)
+                                   THEN "printed_phrase_lacks_prefix" ELSE "printed_phrase_not_explained_by_entropy_log", phrase)}
+                    ELSE {})
+              \cup (IF \E k \in 1..Len(reqs) : reqs[k].rc # 0 /\ c.prefix = ""
+                    THEN {D({"C12"}, "phrase_after_entropy_failure", phrase)} ELSE {}))
+      ELSE \* an ordinary error
+        (IF ~CliFailedOk(o) THEN {D(props, "cli_output_before_error", "")}
+         ELSE IF ~VN!MayFail(cfg, fin.s) THEN {D(props, "new_failed_without_entropy_failure", o.stderr_head)}
+         ELSE {}))]
 
 -----------------------------------------------------------------------------
 \* hook sweeps of the private RLP primitives: out.ok.hex must be the spec encoding
@@ -422,6 +519,7 @@ JudgeEvent(e) ==
          [] e.op = "eip712.encode_type" -> JudgeEncodeType(e)
          [] e.op = "eip712.member_kind" -> JudgeMemberKind(e)
          [] e.op = "cli"             -> JudgeCli(e)
+         [] e.op = "cli.new"         -> JudgeNew(e)
          [] e.op = "rlp.len"   -> JudgeRlpLen(e)
          [] e.op = "rlp.bytes" -> JudgeRlpBytes(e)
          [] e.op = "rlp.uint"  -> JudgeRlpUint(e)
